@@ -216,6 +216,88 @@ func ruleR26(c *Ctx) {
 			return true
 		})
 	}
+	// (b2) accessors with a kind precondition that are not under a Kind switch clause need a guard
+	needKinds := map[string][]string{
+		"IsNil": {"Chan", "Func", "Interface", "Map", "Pointer", "Ptr", "Slice", "UnsafePointer"},
+		"Elem":  {"Pointer", "Ptr", "Interface"},
+	}
+	for _, f := range p.Funcs {
+		in := info(f)
+		inspectNoLit(f.Body, func(m ast.Node) bool {
+			call, ok := m.(*ast.CallExpr)
+			if !ok {
+				return true
+			}
+			fn := callee(in, call)
+			if fn == nil || fn.Pkg() == nil || fn.Pkg().Path() != "reflect" || recvNamed(fn) == nil || recvNamed(fn).Obj().Name() != "Value" {
+				return true
+			}
+			okKinds, tracked := needKinds[fn.Name()]
+			if !tracked {
+				return true
+			}
+			recv := unparen(call.Fun).(*ast.SelectorExpr).X
+			guarded, why := false, "no kind guard"
+			for cur := p.Parent(call); cur != nil && !guarded; cur = p.Parent(cur) {
+				stop := false
+				switch x := cur.(type) {
+				case *ast.IfStmt:
+					if call.Pos() >= x.Body.Pos() && call.End() <= x.Body.End() {
+						inspectNoLit(x.Cond, func(z ast.Node) bool {
+							be, ok := z.(*ast.BinaryExpr)
+							if !ok || be.Op != token.EQL {
+								return true
+							}
+							kc, ok := unparen(be.X).(*ast.CallExpr)
+							if !ok || callee(in, kc) == nil || callee(in, kc).Name() != "Kind" || !sameRef(in, unparen(kc.Fun).(*ast.SelectorExpr).X, recv) {
+								return true
+							}
+							if sel, ok := unparen(be.Y).(*ast.SelectorExpr); ok {
+								for _, k := range okKinds {
+									if sel.Sel.Name == k {
+										guarded, why = true, "under `"+exprStringShort(x.Cond)+"`"
+									}
+								}
+							}
+							return true
+						})
+					}
+				case *ast.CaseClause:
+					body, _ := p.Parent(x).(*ast.BlockStmt)
+					if sw, _ := p.Parent(body).(*ast.SwitchStmt); sw != nil && sw.Tag != nil {
+						if kc, ok := unparen(sw.Tag).(*ast.CallExpr); ok && callee(in, kc) != nil && callee(in, kc).Name() == "Kind" && sameRef(in, unparen(kc.Fun).(*ast.SelectorExpr).X, recv) {
+							all := len(x.List) > 0
+							for _, e := range x.List {
+								name := ""
+								if sel, ok := unparen(e).(*ast.SelectorExpr); ok {
+									name = sel.Sel.Name
+								}
+								found := false
+								for _, k := range okKinds {
+									if k == name {
+										found = true
+									}
+								}
+								if !found {
+									all = false
+								}
+							}
+							if all {
+								guarded, why = true, "under a Kind case listing only admissible kinds"
+							}
+						}
+					}
+				case *ast.FuncDecl, *ast.FuncLit:
+					stop = true
+				}
+				if stop {
+					break
+				}
+			}
+			c.Check(guarded, f, call, "reflect.Value."+fn.Name()+" needs a kind guard", "reflect.Value."+fn.Name()+"() panics unless the value's kind is one of "+strings.Join(okKinds, ",")+"; the call must sit under a test of Kind() on the same value", why)
+			return true
+		})
+	}
 	// (c) method call on reflect.TypeOf(x) where x is interface-typed: needs a nil test
 	for _, f := range p.Funcs {
 		in := info(f)
@@ -274,6 +356,31 @@ func ruleR26(c *Ctx) {
 								if o := objOf(in, pair[0]); o != nil && (o == types.Object(rt) || o == argObj) {
 									guarded = true
 								}
+							}
+						}
+					}
+					// reflect.ValueOf(arg).IsValid() (possibly through a local) is false exactly for a nil interface
+					if vc, ok := z.(*ast.CallExpr); ok {
+						if vfn := callee(in, vc); vfn != nil && vfn.Name() == "IsValid" && vfn.Pkg() != nil && vfn.Pkg().Path() == "reflect" {
+							rx := unparen(vc.Fun).(*ast.SelectorExpr).X
+							isOfArg := func(e ast.Expr) bool {
+								if c2, ok := unparen(e).(*ast.CallExpr); ok && isPkgFunc(callee(in, c2), "reflect", "ValueOf") && len(c2.Args) == 1 {
+									return objOf(in, c2.Args[0]) == argObj && argObj != nil
+								}
+								return false
+							}
+							if isOfArg(rx) {
+								guarded = true
+							} else if id, ok := rx.(*ast.Ident); ok {
+								lv := objOf(in, id)
+								inspectNoLit(f.Body, func(y ast.Node) bool {
+									if a2, ok := y.(*ast.AssignStmt); ok && len(a2.Lhs) == 1 && len(a2.Rhs) == 1 {
+										if lid, ok := a2.Lhs[0].(*ast.Ident); ok && objOf(in, lid) == lv && lv != nil && isOfArg(a2.Rhs[0]) {
+											guarded = true
+										}
+									}
+									return true
+								})
 							}
 						}
 					}
@@ -363,6 +470,33 @@ func ruleR27(c *Ctx) {
 					}
 				}
 				c.Check(okKey, f, as, "store into returned instance-data map", "the key under which a task result / data output is stored derives from ranging over the element's declarations, never from the answer's own keys (undeclared names must not reach instance data)", "key origin: "+origin)
+				// the store happens only for names the answer actually carries: it is control-dependent on
+				// the `ok` of a comma-ok lookup in the caller-supplied map
+				present := enclosingIfWhere(p, as, f.Body, func(cond ast.Expr, inThen bool) bool {
+					id, isId := unparen(cond).(*ast.Ident)
+					if !isId || !inThen {
+						return false
+					}
+					okObj := objOf(in, id)
+					found := false
+					inspectNoLit(f.Body, func(z ast.Node) bool {
+						a2, isAs := z.(*ast.AssignStmt)
+						if !isAs || len(a2.Lhs) != 2 || len(a2.Rhs) != 1 {
+							return true
+						}
+						if lid, k := a2.Lhs[1].(*ast.Ident); !k || objOf(in, lid) != okObj {
+							return true
+						}
+						if ix, k := unparen(a2.Rhs[0]).(*ast.IndexExpr); k {
+							if rid := rootIdent(ix.X); rid != nil && objOf(in, rid) == types.Object(src) {
+								found = true
+							}
+						}
+						return true
+					})
+					return found
+				})
+				c.Check(present != nil, f, as, "store only for names present in the answer", "a declared result is stored only when the answer carries it (comma-ok lookup in the answer map guards the store); otherwise an answer that omits a declared name overwrites the existing variable with an empty value", fmt.Sprintf("guarded by the ok of a lookup in %s: %v", src.Name(), present != nil))
 			}
 			return true
 		})
